@@ -319,7 +319,7 @@ fn selftest() -> (u64, u64) {
 
 pub fn check(tier: Tier) -> i32 {
     let started = Instant::now();
-    let types: Vec<Ty> = tier.pick(vec![Ty::PointZ, Ty::PolygonM, Ty::Multipatch], ALL13.to_vec());
+    let types: Vec<Ty> = ALL13.to_vec();
     let hs = histories(tier.pick(4, 6));
     let mut units = vec![];
     for ty in &types {
